@@ -419,7 +419,10 @@ def run_history(ctx, kind, start, ops):
             # the networkx view is requested several times along a history, not only at its end
             nx_view(ctx, G, S, w)
         stale = False
-        for born, view in old_views:
+        # views kept from earlier are listed again after some operations only: between two listings the graph may have
+        # gone through several edits that leave its counts where they were
+        reread = (len(done) * 7 + len(ops)) % 3 == 0 or len(done) == len(ops)
+        for born, view in (old_views if reread else []):
             ctx.count("old_view_rereads")
             _Busy.depth += 1
             try:
